@@ -114,6 +114,8 @@ func (group *LogGroupInfo) SetLogWeight(logURL string, w float32) error {
 	if w < 0.0 {
 		return fmt.Errorf("trying to assign negative weight %v to Log %q", w, logURL)
 	}
+	group.wMu.Lock()
+	defer group.wMu.Unlock()
 	newWeights := make(map[string]float32)
 	for l, wt := range group.LogWeights {
 		newWeights[l] = wt
@@ -122,8 +124,6 @@ func (group *LogGroupInfo) SetLogWeight(logURL string, w float32) error {
 	if !group.satisfyMinimalInclusion(newWeights) {
 		return fmt.Errorf("assigning weight %v to Log %q will result in inability to reach minimal inclusion number %d", w, logURL, group.MinInclusions)
 	}
-	group.wMu.Lock()
-	defer group.wMu.Unlock()
 	group.LogWeights = newWeights
 	return nil
 }
@@ -137,13 +137,13 @@ func (group *LogGroupInfo) GetSubmissionSession() []string {
 	session := make([]string, 0)
 	// modelling weighted random with exclusion
 
+	group.wMu.RLock()
+	defer group.wMu.RUnlock()
 	unProcessedWeights := make(map[string]float32)
 	for logURL, w := range group.LogWeights {
 		unProcessedWeights[logURL] = w
 	}
 
-	group.wMu.RLock()
-	defer group.wMu.RUnlock()
 	for range group.LogURLs {
 		sampleLog, err := weightedRandomSample(unProcessedWeights)
 		if err != nil {
